@@ -187,6 +187,7 @@ static std::string handleT(const json& j, std::string& stat, bool& tainted) {
                         {"got", b.got.substr(0, b.got.find('@') == std::string::npos ? std::string::npos : b.got.find('@') + 1)},
                         {"optF", R.opts.find('F') != std::string::npos}, {"optH", R.opts.find('H') != std::string::npos}};
             if (X) cls["greedy_first_match_is_whole_string"] = gf == 1;
+            cls["shape"] = j.value("shape", "");
             if (b.got.find(' ') != std::string::npos && b.got[0] == '1') cls["pos_error"] = b.got.substr(b.got.find(' ') + 1);
             for (char c : {'H', 'F'}) {
                 const RunRes* q = partner(R, c);
@@ -344,7 +345,7 @@ static std::string handleP(const json& j, std::string& stat, bool& tainted) {
         if (!b.n) continue;
         json m = {{"t", "mismatch"},
                   {"cls", {{"binder", "P"}, {"api", "pattern-facet"}, {"mode", "X"}, {"exp", b.exp}, {"got", b.got}, {"sig", j.value("sig", "")},
-                           {"greedy_first_match_is_whole_string", gf == 1}}},
+                           {"greedy_first_match_is_whole_string", gf == 1}, {"shape", j.value("shape", "")}}},
                   {"case", {{"mode", "P"}, {"text", text}, {"string", b.s}, {"expected", b.exp}, {"got", b.got}, {"strings_disagreeing", b.n}, {"line", j}}},
                   {"why", "xs:pattern " + text + " on \"" + b.s + "\": specification " + b.exp + ", validator " + b.got}};
         out += vh::dumpLine(m);
